@@ -260,7 +260,7 @@ EvalE(e, st) ==
          ELSE Ok(r.v, Pop(r.st))
     [] e.t = "call" ->
          LET f == Find(st, e.f) IN
-         IF ~f.found \/ f.v.t = "nil" THEN ErrUnk(st)
+         IF ~f.found \/ f.v.t = "nil" THEN Err(st)      \* calling an unknown function is an error everywhere
          ELSE IF f.v.t = "fn" THEN CallUser(f.v, e, st)
          ELSE IF f.v.t = "gofn" THEN CallGo(f.v.name, e, st)
          ELSE Err(st)
